@@ -84,11 +84,8 @@ def model_inputs(ctx, m):
 def _margin_goal(kind, extra):
     """strengthened negation for eq goals: |lhs-rhs| > MARGIN"""
     if kind in ("eq", "eqtol") and isinstance(extra, core.Sym):
-        n, d = extra.n, extra.d
-        m = z3.RealVal(str(MARGIN))
-        if d is None:
-            return z3.Or(n > m, n < -m)
-        return z3.Or(n * d > m * d * d, n * d < -m * d * d)
+        a = abs(extra) - MARGIN
+        return core.Sym.of(a).sign_term("gt")
     return None
 
 
